@@ -139,10 +139,16 @@ pub fn check_history(h: &Hist, ctx: &mut Ctx) -> Result<(), Failure> {
                         if pulled.get() != before {
                             return fail(ctx, "rejected-request-pulls-bytes", i, format!("{} bytes were pulled by a request that was rejected for its length", pulled.get() - before));
                         }
-                        let want = (read_len + n, max_len, source(h.source), lay, off);
-                        let got = (e.required_len, e.len, e.len_source, e.layer, e.layer_start_offset);
-                        if want != got {
-                            return fail(ctx, "len-error-describes-the-layer", i, format!("(required_len, len, len_source, layer, layer_start_offset) = {:?}, the layer's state says {:?}", got, want));
+                        // the error names the layer, its offset and the source of the limit; its two
+                        // lengths may count from the layer start (needed so far + requested vs. what the
+                        // layer has) or from the reader position (requested vs. what is left) - both are
+                        // true statements with the same deficit
+                        let deficit = read_len + n - max_len;
+                        let lens_ok = e.required_len > e.len && e.required_len - e.len == deficit && (e.len == max_len || e.len == max_len - read_len);
+                        let want = (source(h.source), lay, off);
+                        let got = (e.len_source, e.layer, e.layer_start_offset);
+                        if want != got || !lens_ok {
+                            return fail(ctx, "len-error-describes-the-layer", i, format!("required_len {} / len {} with (len_source, layer, layer_start_offset) = {:?}; the layer has {} bytes, {} read so far, {} requested, set up as {:?}", e.required_len, e.len, got, max_len, read_len, n, want));
                         }
                         rejected_before = true;
                     }
@@ -174,10 +180,13 @@ pub fn check_history(h: &Hist, ctx: &mut Ctx) -> Result<(), Failure> {
         if pulled.get() > h.limit {
             return fail(ctx, "pulls-more-than-the-limit", i, format!("{} bytes pulled from the underlying reader, limit {}", pulled.get(), h.limit));
         }
-        let got = (lr.max_len(), lr.read_len(), lr.layer_offset(), lr.layer(), lr.len_source());
-        let want = (max_len, read_len, off, lay, source(h.source));
+        // the unambiguous accessors (where the current layer starts, which layer, which length source);
+        // how the budget is split between max_len() and read_len() is not constrained - the budget itself
+        // is checked behaviourally above
+        let got = (lr.layer_offset(), lr.layer(), lr.len_source());
+        let want = (off, lay, source(h.source));
         if got != want {
-            return fail(ctx, "accessors-follow-the-documented-state", i, format!("(max_len, read_len, layer_offset, layer, len_source) = {:?}, documented state {:?}", got, want));
+            return fail(ctx, "accessors-follow-the-documented-state", i, format!("(layer_offset, layer, len_source) = {:?}, documented state {:?}", got, want));
         }
     }
     let reads = h.ops.iter().filter(|o| matches!(o, Op::Read(_))).count();
